@@ -1226,3 +1226,35 @@ Proof.
       destruct b as [p kid|[c|]|]; try discriminate. apply IH. exact Cr. }
     destruct S as [cs S]. rewrite S. simpl. rewrite F. reflexivity.
 Qed.
+
+(** * createEntry's accepted sizes are exactly JWK's supported sizes: every
+    entry of a key store built by the repaired code has a JWK *)
+Theorem accepted_sizes_have_jwk f ok bl es :
+  fx2 f = true -> create_key_store f ok bl = Ok es ->
+  forall e, In e es -> exists a, jose_alg e = Ok a.
+Proof.
+  intros F H e Hin.
+  assert (K : ks_of Signer f {| i_path_empty := false; i_keyid := ""; i_file := Some bl; i_chain_ok := ok;
+                                i_usable := fun _ => true |} = Ok es) by exact H.
+  pose proof (ks_of_fixed_supported _ _ _ _ F K) as U.
+  apply jose_alg_ok_iff. eapply existsb_false_in; eauto.
+Qed.
+
+(** and the two size tables are the same sets, for every size (not a range) *)
+Theorem size_tables_agree a z :
+  size_ok a z = true <->
+  exists alg, jose_alg {| e_kid := ""; e_alg := a; e_size := z; e_pub := 0; e_chain := [] |} = Ok alg.
+Proof.
+  rewrite jose_alg_ok_iff. unfold unsupported. simpl. destruct (size_ok a z); simpl; split; congruence.
+Qed.
+
+Theorem size_ok_exact a z :
+  size_ok a z = true <->
+  match a with
+  | RSA => z = 2048%Z \/ z = 3072%Z \/ z = 4096%Z
+  | ECDSA => z = 256%Z \/ z = 384%Z \/ z = 521%Z
+  end.
+Proof.
+  unfold size_ok, rsa_size_ok, ec_size_ok. destruct a;
+    repeat rewrite orb_true_iff; repeat rewrite Z.eqb_eq; tauto.
+Qed.
